@@ -41,6 +41,12 @@ def nat (n : Nat) : α := RealLike.ofNat n
 
 /-! ### unimodal -/
 
+/-- `rand` (`__init__.py:27-43`): f(x) = random(0,1) — the next draw of the tape, whatever the individual;
+`none` when the tape is exhausted. -/
+def rand (_x : List α) : List α → Option (α × List α)
+  | [] => none
+  | r :: rest => some (r, rest)
+
 /-- `plane` (`__init__.py:46-62`): f(x) = x₀. -/
 def plane : List α → Option α
   | [] => none
